@@ -230,7 +230,7 @@ fn bigint_residues(ctx: &mut Ctx, rng: &mut Rng) {
 }
 
 pub fn run(ctx: &mut Ctx) {
-    let n = ctx.by_tier(60_000u64, 8_000_000);
+    let n = ctx.by_tier(180_000u64, 8_000_000);
     macro_rules! ring {
         ($t:ty, $plain:expr) => { ctx.random_cases(&<$t as Bridge>::name(), n, |c, r| history::<$t>(c, r, $plain, None)); };
     }
